@@ -274,6 +274,7 @@ class Parser:
         self.bip = 0
         self.in_ball_wait = False
         self.cur = 0
+        self.players = 0
 
     def envs(self):
         """consume requests between lifecycle events, tracking what they mean for the numeric clauses"""
@@ -286,6 +287,7 @@ class Parser:
                 if self.bip > 0 and snap[0] == 0:
                     self.trigger = True
                 self.bip = snap[0]
+                self.players = snap[1]
             if w[0] == "endball":
                 self.trigger = True
             elif w[0] == "endgame":
@@ -316,6 +318,7 @@ class Parser:
             if self.bip > 0 and it[4][0] == 0:
                 self.trigger = True
             self.bip = it[4][0]
+            self.players = it[4][1]
         self.i += 1
         return it
 
@@ -370,9 +373,8 @@ class Parser:
         self.expect("player_turn_will_end", p, b)
         self.expect("player_turn_ending", p, b)
         self.expect("player_turn_ended", p, b)
-        players = self.items[self.i - 1][4][1]
-        nx = self.peek()
-        last = self.slam or (b >= self.case["bpg"] and p == players)
+        nx = self.peek()     # consumes the requests made in player_turn_ended handlers (a player may have been added)
+        last = self.slam or (b >= self.case["bpg"] and p == self.players)
         if (last or self.end_req) and nx == "player_turn_will_start":
             raise Reject("turn-after-last-ball", {"player": p, "ball": b})
         if not (last or self.end_req) and nx == "game_will_end":
@@ -558,7 +560,7 @@ def run(ctx):
     try:
         for case in corpus():
             one_case(ctx, model, case)
-        for i in range(ctx.n(500, 7000)):
+        for i in range(ctx.n(1200, 12000)):
             one_case(ctx, model, gen_case(ctx.rng("case", i)))
             if len([f for f in ctx.failures if f["signature"] not in KNOWN_SIGS]) >= 3:
                 break
